@@ -22,6 +22,7 @@
    rngCreate:   ...once... ; CChk (plain read of _inited) ; Lock ; Body ; Unlock
    rngStepR/R2/Rekey/Close:  Lock ; Body ; Unlock
    rngIsValid:  VChk (plain read of _inited, OUTSIDE the mutex) ; Lock ; Body ; Unlock
+                [IsValidSync: VChk (atomic read of _once) ; VChk2 (plain read of _inited) ; Lock ...]
 
    Every action declares the shared locations it touches (Acc).  "atomic" means a sequentially
    consistent / acquire-release primitive (the __sync builtins, the pthread mutex calls), so that the absence of
@@ -40,7 +41,10 @@ CONSTANTS Threads,          \* set of thread identities
           Lens,             \* request lengths (in generator blocks) of StepR/StepR2
           PublishAtomic,    \* is the final store to *once atomic?
           UnrefIsValid,     \* may a thread call rngIsValid without holding a reference?
-          InitMayFail       \* may rngInit fail (mutex creation / destructor registration)?
+          InitMayFail,      \* may rngInit fail (mutex creation / destructor registration)?
+          IsValidSync       \* how rngIsValid decides to return early:  FALSE  if (!_inited)               [2023.04.13]
+                            \*   TRUE  if (mtAtomicCmpSwap(&_once, 0, 0) != 1 || !_inited)   [proposed fix];
+                            \* checks/C18.py determines which one the tree has by a probe schedule
 
 AllOps == {"Create", "StepR", "StepR2", "Rekey", "IsValid", "Close"}
 StepOps == {"StepR", "StepR2"}
@@ -59,7 +63,7 @@ vars == <<shared, local, ghost>>
 NullSt == [valid |-> FALSE, epoch |-> -1, blk |-> 0]
 NoRes == [v |-> "none", n |-> 0]
 
-PcSet == {"idle", "c_cas", "i_mtx", "i_reg", "i_set", "c_pub", "c_chk", "v_chk", "lock", "body", "unlock"}
+PcSet == {"idle", "c_cas", "i_mtx", "i_reg", "i_set", "c_pub", "c_chk", "v_chk", "v_chk2", "lock", "body", "unlock"}
 
 TypeOK ==
   /\ once \in {0, BUSY, 1} /\ inited \in BOOLEAN /\ mtx \in Threads \cup {Free}
@@ -124,11 +128,15 @@ CChk(t) == /\ pc[t] = "c_chk"
            /\ IF inited THEN Goto(t, "lock") /\ UNCHANGED res
                         ELSE Return(t, "err_create", 0)
            /\ UNCHANGED <<shared, op, calls, refs, req, ghost>>
-(* rngIsValid: if (!_inited) return FALSE *)
+(* rngIsValid: if (!_inited) return FALSE          -- or, IsValidSync: an atomic read of the trigger first *)
 VChk(t) == /\ pc[t] = "v_chk"
-           /\ IF inited THEN Goto(t, "lock") /\ UNCHANGED res
-                        ELSE Return(t, "false", 0)
+           /\ IF IsValidSync
+                THEN IF once = 1 THEN Goto(t, "v_chk2") /\ UNCHANGED res ELSE Return(t, "false", 0)
+                ELSE IF inited THEN Goto(t, "lock") /\ UNCHANGED res ELSE Return(t, "false", 0)
            /\ UNCHANGED <<shared, op, calls, refs, req, ghost>>
+VChk2(t) == /\ pc[t] = "v_chk2"
+            /\ IF inited THEN Goto(t, "lock") /\ UNCHANGED res ELSE Return(t, "false", 0)
+            /\ UNCHANGED <<shared, op, calls, refs, req, ghost>>
 
 (* ---- the mutex *)
 Lock(t) == /\ pc[t] = "lock" /\ mtx = Free /\ mtx' = t /\ Goto(t, "body")
@@ -176,7 +184,7 @@ Body(t) == /\ pc[t] = "body" /\ Goto(t, "unlock")
            /\ (BodyCreate(t) \/ BodyStep(t) \/ BodyRekey(t) \/ BodyIsValid(t) \/ BodyClose(t))
            /\ UNCHANGED <<once, inited, mtx, op, calls, req, ghost>>
 
-Internal(t) == \/ CCas(t) \/ IMtx(t) \/ IReg(t) \/ ISet(t) \/ CPub(t) \/ CChk(t) \/ VChk(t)
+Internal(t) == \/ CCas(t) \/ IMtx(t) \/ IReg(t) \/ ISet(t) \/ CPub(t) \/ CChk(t) \/ VChk(t) \/ VChk2(t)
                \/ Lock(t) \/ Body(t) \/ Unlock(t)
 Step(t) == (\E c \in AllOps, k \in Lens \cup {0} : Dispatch(t, c, k)) \/ Internal(t)
 Next == \E t \in Threads : Step(t)
@@ -204,7 +212,8 @@ Acc(t) ==
     [] pc[t] = "i_reg"  -> {}                                   \* utilOnExit: its own once/mutex/list
     [] pc[t] = "i_set"  -> {W("inited", FALSE)}
     [] pc[t] = "c_pub"  -> {W("once", PublishAtomic)}
-    [] pc[t] \in {"c_chk", "v_chk"} -> {R("inited", FALSE)}
+    [] pc[t] \in {"c_chk", "v_chk2"} -> {R("inited", FALSE)}
+    [] pc[t] = "v_chk"  -> {IF IsValidSync THEN R("once", TRUE) ELSE R("inited", FALSE)}
     [] pc[t] \in {"lock", "unlock"} -> {W("mtxobj", TRUE)}
     [] pc[t] = "body"   -> BodyAcc(op[t])
     [] OTHER -> {}
